@@ -73,6 +73,8 @@ pub struct NetInner {
     send_calls: HashMap<SocketAddr, usize>,
     /// (node, k-th send call (0-based)) -> answer
     send_plan: HashMap<(SocketAddr, usize), SendAnswer>,
+    /// destinations towards which every send fails (host unreachable)
+    fail_dst: Vec<SocketAddr>,
 }
 
 impl NetInner {
@@ -114,7 +116,10 @@ impl SocketTrait for SimSocket {
                 *c += 1;
                 k
             };
-            let answer = n.send_plan.get(&(self.addr, k)).copied().unwrap_or(SendAnswer::Ok);
+            let mut answer = n.send_plan.get(&(self.addr, k)).copied().unwrap_or(SendAnswer::Ok);
+            if n.fail_dst.contains(target) {
+                answer = SendAnswer::Err;
+            }
             if answer != SendAnswer::Err {
                 let seq = n.log.len();
                 let sent_ms = n.now_ms();
@@ -263,6 +268,8 @@ pub struct Scenario {
     /// adversary with a menu of `inject_menu` forgeries offered at every eligible datagram
     pub injector: Option<Injector>,
     pub inject_menu: usize,
+    /// every send_to towards one of these addresses fails
+    pub fail_dst: Vec<SocketAddr>,
 }
 
 impl Scenario {
@@ -282,6 +289,7 @@ impl Scenario {
             sample: vec![],
             injector: None,
             inject_menu: 0,
+            fail_dst: vec![],
         }
     }
 }
@@ -388,6 +396,7 @@ async fn run_inner(sc: &Scenario, mut peers: Vec<Box<dyn Peer>>, chooser: &mut d
             inboxes: HashMap::new(),
             send_calls: HashMap::new(),
             send_plan: sc.send_plan.iter().map(|(n, k, a)| ((sc.nodes[*n].addr, *k), *a)).collect(),
+            fail_dst: sc.fail_dst.clone(),
         })),
         notify: Arc::new(Notify::new()),
     };
